@@ -19,6 +19,7 @@ from icalendar.timezone import tzp
 A, B, C, D = "Europe/Berlin", "America/New_York", "Custom/Unknown", "Asia/Tokyo"
 T_UNUSED = "Africa/Cairo"
 X_UNUSED = "Custom/Other"
+W = "(UTC+01:00) Amsterdam, Berlin; Bern"  # an Exchange-style id: needs quoting as a parameter and escaping as TEXT
 WINDOW = (date(2024, 1, 1), date(2025, 1, 1))
 
 PLACEMENTS = {
@@ -36,6 +37,7 @@ PLACEMENTS = {
     "P11": ("VEVENT", ["EXDATE;TZID=/%s:20240605T100000" % D], {"/" + D}),
     # an explicit TZID=UTC parameter is a TZID parameter like any other (the provider knows UTC)
     "P12": ("VTODO", ["DTSTART;TZID=UTC:20240601T080000"], {"UTC"}),
+    "P13": ("VEVENT", ['DTEND;TZID="%s":20240601T130000' % W], {W}),
 }
 PRESETS = ("tzA", "tzA2", "tzT", "tzC", "tzX", "tzNoId")
 
@@ -46,8 +48,9 @@ def vtz_text(tzid):
     """VTIMEZONE text for the presets (harness-side cache only; generated once per process and provider)."""
     key = (tzp.name, tzid)
     if key not in _VTZ_CACHE:
-        if tzid in (C, X_UNUSED, None):
-            lines = ["BEGIN:VTIMEZONE"] + ([f"TZID:{tzid}"] if tzid else []) + [
+        if tzid in (C, X_UNUSED, None, W):
+            esc = tzid.replace(",", "\\,").replace(";", "\\;") if tzid else tzid
+            lines = ["BEGIN:VTIMEZONE"] + ([f"TZID:{esc}"] if tzid else []) + [
                 "BEGIN:STANDARD", "DTSTART:19701025T030000", "TZOFFSETFROM:+0200", "TZOFFSETTO:+0100", "TZNAME:XST",
                 "END:STANDARD", "END:VTIMEZONE"]
             _VTZ_CACHE[key] = "\r\n".join(lines) + "\r\n"
@@ -59,7 +62,7 @@ def vtz_text(tzid):
 def preset_ids(presets):
     ids = []
     for p in presets:
-        ids.append({"tzA": A, "tzA2": A, "tzT": T_UNUSED, "tzC": C, "tzX": X_UNUSED, "tzNoId": None}[p])
+        ids.append({"tzA": A, "tzA2": A, "tzT": T_UNUSED, "tzC": C, "tzX": X_UNUSED, "tzNoId": None, "tzW": W}[p])
     return ids
 
 
@@ -148,6 +151,8 @@ def build_api(placements, presets):
             c.add("exdate", [datetime(2024, 6, 5, 10)], parameters={"TZID": "/" + D})
         elif p == "P12":
             c.add("dtstart", datetime(2024, 6, 1, 8), parameters={"TZID": "UTC"})
+        elif p == "P13":
+            c.add("dtend", datetime(2024, 6, 1, 13), parameters={"TZID": W})
     return cal
 
 
@@ -208,7 +213,7 @@ def run_case(case):
         fails.append(fail("missing-set", case, sorted(missing), got_missing))
     before = [(id(c), c.to_ical()) for c in cal.walk("VTIMEZONE")]
     n_sub_before = len(cal.subcomponents)
-    known_missing = {i for i in missing if i != C}
+    known_missing = {i for i in missing if i not in (C, W)}
     outcome = "ok"
     for k in range(3):
         r = attempt(lambda: cal.add_missing_timezones(*window_args(window)) if window else cal.add_missing_timezones())
@@ -226,7 +231,7 @@ def run_case(case):
         if len(cal.subcomponents) != n_sub_before + len(known_missing):
             fails.append(fail("subcomponent-count", case, n_sub_before + len(known_missing), (len(cal.subcomponents), f"after call {k + 1}")))
         still = attempt(cal.get_missing_tzids)
-        want_still = missing & {C}
+        want_still = missing & {C, W}
         if still != ("ok", want_still):
             fails.append(fail("missing-after-add", case, sorted(want_still), still))
         u2 = attempt(cal.get_used_tzids)
@@ -258,7 +263,7 @@ def run(ctx):
     ctx.bounds = {"placements": len(PLACEMENTS), "max_placements": maxp, "vtimezone_presets": list(PRESETS)}
     ctx.assumptions += ["the used set is the set of TZID *parameters*; a list value built from several zones carries one TZID (C02)",
                         "for ids with duplicate pre-existing VTIMEZONEs 'exactly one' is read as 'none added'"]
-    pl = list(PLACEMENTS)
+    pl = [p for p in PLACEMENTS if p != "P13"]
 
     def subsets(items, k):
         for n in range(0, k + 1):
@@ -276,6 +281,12 @@ def run(ctx):
         for placements in subsets(pl, 1):
             for presets in ((), ("tzA",), ("tzT", "tzNoId")):
                 yield ("c", "zoneinfo", "parse", placements, presets, None)
+        # an id that needs quoting (parameter) and escaping (TZID property), with and without its own VTIMEZONE
+        for provider in env.PROVIDERS:
+            for how in ("parse", "api"):
+                for placements in (("P13",), ("P1", "P13"), ("P13", "P4")):
+                    for presets in ((), ("tzW",), ("tzW", "tzA"), ("tzA", "tzW", "tzC")):
+                        yield ("c", provider, how, placements, presets, WINDOW)
         # the window bounds given as naive / aware datetimes instead of dates
         for provider in env.PROVIDERS:
             for placements in list(subsets(pl, 1)) + [("P1", "P2"), ("P5", "P9")]:
